@@ -9,7 +9,7 @@ import zlib
 
 import z3
 
-from ..symex import (FALSE, GENERIC_MODELS, TRUE, Enum, Exec, Opaque, Ref, State, Struct, SymEnum, Tup, Unsupported, bv)
+from ..symex import (FALSE, GENERIC_MODELS, STD_CMP_MODELS, TRUE, Enum, Exec, Opaque, PyVec, Ref, State, Struct, SymEnum, Tup, Unsupported, bv)
 from .. import witness
 
 
@@ -24,6 +24,15 @@ def io_models():
         return [(Struct("body", {}), [], None)]
 
     def m_read_exact(ex, st, a, dst, callee):
+        buf = ex._read(st, a[1].root, list(a[1].projs)) if isinstance(a[1], Ref) else None
+        if isinstance(buf, PyVec) and buf.items:
+            # a fixed-size header buffer (refactorings may read header words with read_exact directly): fill it with symbolic bytes
+            n = len(buf.items)
+            word = ex.fresh_bv("u32_read", 8 * n) if n == 4 else ex.fresh_bv("bytes_read", 8 * n)
+            filled = PyVec([z3.Extract(8 * i + 7, 8 * i, word) for i in range(n)])
+            return [(("ADV", a[1], filled, Enum("Ok", [Tup([])])), [], "read_exact(%d bytes) -> Ok" % n),
+                    (Enum("Err", [Struct("io::Error", {0: Enum("UnexpectedEof")})]), [], "read_exact(%d bytes) -> short read" % n),
+                    (Enum("Err", [Struct("io::Error", {0: Enum("OtherIoError")})]), [], "read_exact(%d bytes) -> I/O fault" % n)]
         return [(Enum("Ok", [Tup([])]), [], "read_exact(body) -> Ok"),
                 (Enum("Err", [Struct("io::Error", {0: Enum("UnexpectedEof")})]), [], "read_exact(body) -> short read"),
                 (Enum("Err", [Struct("io::Error", {0: Enum("OtherIoError")})]), [], "read_exact(body) -> I/O fault")]
@@ -46,7 +55,7 @@ def io_models():
         return [(Enum("Ok", [Opaque("record")]), [], "decode_body -> Ok"),
                 (Enum("Err", [Enum("WalProtocol", [Opaque("msg")])]), [], "decode_body -> Err")]
 
-    return GENERIC_MODELS + [
+    return STD_CMP_MODELS + GENERIC_MODELS + [
         (r"WalReader::try_read_u32$", m_try_read_u32),
         (r"vec::from_elem::<u8>$", m_from_elem),
         (r"<File as std::io::Read>::read_exact$|as Read>::read_exact$", m_read_exact),
@@ -98,6 +107,7 @@ def run_o1(mf, tier):
     fn, ex, off, paths, max_len = explore_next_record(mf)
     failed, witness_text, n = [], [], 0
     reproduced = None
+    unreproduced = []
     for p in paths:
         if p.kind == "panic":
             failed.append("panic possible: " + p.signature())
@@ -108,22 +118,31 @@ def run_o1(mf, tier):
         kind = classify_ret(p.ret)
         if kind[0] == "err" and not has_io_fault(p):
             sig = "open fails on a tail without any I/O fault: returns Err(%s) on path [%s]" % (kind[1], p.signature())
-            failed.append(sig)
-            # concretise: the bytes of the tail record
+            # concretise: the bytes of the tail record, and replay them through Db::open
             tail = concretise_tail(ex, p, max_len)
+            rep = None
             if tail is not None:
                 rep, lines = witness.run(["wal-tail", tail.hex()])
                 witness_text += ["path: " + p.signature(), "tail bytes after the last committed record: " + tail.hex()] + lines
-                if rep is not None:
-                    reproduced = rep if reproduced is None else (reproduced and rep)
+            if rep is False:
+                unreproduced.append(sig)          # the solver's tail does not fail natively: not reported as a violation
+            else:
+                failed.append(sig)
+                if rep:
+                    reproduced = True
     res = {"paths": n, "queries": ex.queries, "solver_time_s": round(ex.solver_time, 3),
            "sample": [p.signature() + " => " + repr(p.ret)[:60] for p in paths if p.kind == "return"][:12],
            "functions": [fn.header[:100]]}
     if failed:
         res.update({"status": "fail", "failed": sorted(set(failed)), "reason": "; ".join(sorted(set(failed)))[:400],
                     "witness_text": witness_text, "reproduced": reproduced})
+    elif unreproduced:
+        res.update({"status": "inconclusive", "reason": "counterexample(s) did not reproduce natively: " + "; ".join(unreproduced)[:300],
+                    "witness_text": witness_text})
     else:
         res["status"] = "pass"
+    if unreproduced:
+        res["unreproduced"] = unreproduced
     return res
 
 
